@@ -16,7 +16,7 @@ from concurrent.futures import ThreadPoolExecutor
 
 LEVEL = "model_checking"
 
-QUICK = ["quick_pkg", "quick_stmt", "quick_meth", "quick_multi", "quick_xloop", "quick_xfun"]
+QUICK = ["quick_pkg", "quick_stmt", "quick_meth", "quick_multi", "quick_struct", "quick_shadowtype", "quick_xloop", "quick_xfun"]
 THOROUGH = ["thorough_pkg", "thorough_stmt", "thorough_blocks", "thorough_meth", "thorough_xloop",
             "thorough_xfun", "thorough_xmix"]
 SIM = ["sim_all", "sim_go"]
